@@ -48,13 +48,18 @@ static void make_knots(int n, int spacing, double *x)
  * window m = min(n, 5); m odd: numerator and denominator of order (m-1)/2;
  * m even: denominator order m/2, numerator one less.
  */
-#define NFUNC 8
+#define NFUNC 10
 static const char *func_name[NFUNC] = { "const", "a/(1+bx)", "linear",
     "(a+bx)/(1+dx)", "(a+bx)/(1+dx+ex2)", "quadratic",
-    "(a+bx+cx2)/(1+dx+ex2)", "lossy-delay-line" };
+    "(a+bx+cx2)/(1+dx+ex2)", "lossy-delay-line",
+    "linear, exactly 0 at the middle knot",
+    "b(x-x0)/(1+dx), exactly 0 at the middle knot" };
 /* the delay line is in no window's class: only exactness at knots and
    independence of the query history are asserted for it */
-static const int func_min_m[NFUNC] = { 1, 2, 3, 3, 4, 5, 5, 99 };
+static const int func_min_m[NFUNC] = { 1, 2, 3, 3, 4, 5, 5, 99, 3, 3 };
+/* frequency at which functions 8 and 9 vanish (a knot: the value the
+   library is given there is exactly 0) */
+static double g_zero_f;
 
 static double complex gen(int fn, double f)
 {
@@ -69,6 +74,8 @@ static double complex gen(int fn, double f)
     case 4: return (a + b * x) / (1.0 + d * x + e * x * x);
     case 5: return a + b * x + c * x * x;
     case 6: return (a + b * x + c * x * x) / (1.0 + d * x + e * x * x);
+    case 8: return b * ((f - g_zero_f) / 1.0e9);
+    case 9: return b * ((f - g_zero_f) / 1.0e9) / (1.0 + d * x);
     default: return 0.9 * cexp(-0.2 * x) * cexp(-I * 9.0 * x);
     }
 }
@@ -105,6 +112,7 @@ static void run_r0(int n, int spacing, int fn, vf_result *r)
 	    "midpoints, ends, 120 query orders, out-of-range queries", n,
 	    spacing, func_name[fn]);
     make_knots(n, spacing, x);
+    g_zero_f = x[n / 2];
     for (int i = 0; i < n; ++i)
 	y[i] = gen(fn, x[i]);
     vf_errlog_reset(&elog);
